@@ -446,6 +446,10 @@ NX_ACTIONS = {
   'nx_action_set_tunnel': (dict(tun_id=(0, 0xffffffff)), {}, 8),
   'nx_action_set_tunnel64': (dict(tun_id=(0, (1 << 64) - 1)), {}, 16),
   'nx_action_fin_timeout': (dict(fin_idle_timeout=(0, 0xffff), fin_hard_timeout=(0, 0xffff)), {}, 8),
+  'nx_action_learn': (dict(idle_timeout=(0, 0xffff), hard_timeout=(0, 0xffff), priority=(0, 0xffff), cookie=(0, (1 << 64) - 1), flags=(0, 0xffff), table_id=(0, 255),
+                           fin_idle_timeout=(0, 0xffff), fin_hard_timeout=(0, 0xffff)), {}, 24),
+  'nx_action_bundle': (dict(algorithm=(0, 0xffff), fields=(0, 0xffff), basis=(0, 0xffff)), {}, 24),
+  'nx_action_bundle:2': (dict(algorithm=(0, 0xffff), fields=(0, 0xffff), basis=(0, 0xffff)), {}, 32),      # two slave ports: 4 bytes + padding to 8
   'nx_action_exit': ({}, {}, 8),
   'nx_action_dec_ttl': ({}, {}, 8),
 }
@@ -468,8 +472,9 @@ def h_nx_action(ctx, name):
   env.get_core()
   nx = ctx.pox('pox.openflow.nicira'); of = ctx.pox('pox.openflow.libopenflow_01')
   fields, clsfields, bodylen = NX_ACTIONS[name]
-  cls = getattr(nx, name)
+  cls = getattr(nx, name.split(':')[0])
   o = cls()
+  if ':' in name: o.slaves = [ctx.int('slave%d' % k, 0, 0xffff) for k in range(int(name.split(':')[1]))]
   vals = {}
   for a, (lo, hi) in fields.items():
     v = ctx.int(a, lo, hi); setattr(o, a, v); vals[a] = v
